@@ -51,6 +51,7 @@ def run(ctx, obs):
         source_vectors(ctx, obs, q)
     order_sqrt(ctx, obs)
     order_geodesic(ctx, obs)
+    geotopological_partition(ctx, obs)
     rank_fwd(ctx, obs)
     row_scope(ctx, obs)
     custom(ctx, obs)
@@ -137,6 +138,40 @@ def order_sqrt(ctx, obs, rule='ORDER'):
                                        and isinstance(n.value, ast.Constant) and n.value.value == 0)
               or (isinstance(n, ast.Call) and _leaf(n.func) in ('maximum', 'clip')))
     obs.check(cl is not None, rule, q2, 'negatives are set to 0', 'no clamp of negative entries', '', where(prog, f2, f2.node))
+
+
+def geotopological_partition(ctx, obs, rule='PART'):
+    """below / between / above: every value falls in exactly one of the three masks.  At each threshold t the comparisons used on
+    the two sides must be complementary (`< t` with `>= t`, `> t` with `<= t`); `< t` next to `> t` leaves the values EQUAL to the
+    threshold in no mask - they keep their raw value instead of 0 / 1 / the rescaled one (quantiles coincide with data values for
+    low = 0, up = 1, ties, and whenever (N - 1) q is an integer)."""
+    prog = ctx.prog
+    q = T + 'geotopological_transform'
+    f = prog.func(q)
+    thr = {}
+    for st in ast.walk(f.node):
+        if isinstance(st, ast.Assign) and len(st.targets) == 1 and isinstance(st.targets[0], ast.Name) and isinstance(st.value, ast.Call) \
+                and _leaf(st.value.func) in ('quantile', 'nanquantile', 'percentile'):
+            thr[st.targets[0].id] = st
+    if len(thr) < 2:
+        obs.unk(rule, q, 'the masks below / between / above partition the values', f'{len(thr)} quantile thresholds found', where(prog, f, f.node))
+        return
+    for t in sorted(thr):
+        ops = []
+        for c in ast.walk(f.node):
+            if isinstance(c, ast.Compare) and len(c.ops) == 1 and isinstance(c.comparators[0], ast.Name) and c.comparators[0].id == t:
+                ops.append(type(c.ops[0]).__name__)
+            elif isinstance(c, ast.Compare) and len(c.ops) == 1 and isinstance(c.left, ast.Name) and c.left.id == t:
+                ops.append({'Lt': 'Gt', 'Gt': 'Lt', 'LtE': 'GtE', 'GtE': 'LtE'}.get(type(c.ops[0]).__name__, type(c.ops[0]).__name__))
+        con = f'values equal to the threshold `{t}` fall in exactly one mask'
+        sset = set(ops)
+        if sset in ({'Lt', 'GtE'}, {'Gt', 'LtE'}):
+            obs.ok(rule, q, con, f'comparisons {sorted(sset)}', where(prog, f, thr[t]))
+        elif sset == {'Lt', 'Gt'}:
+            obs.bad(rule, q, con, f'`{t}` is compared with `<` on one side and `>` on the other: entries equal to the threshold are in no mask and '
+                    f'keep their raw value (the output leaves [0, 1])', where(prog, f, thr[t]))
+        else:
+            obs.unk(rule, q, con, f'comparisons with `{t}`: {sorted(ops)}', where(prog, f, thr[t]))
 
 
 def order_geodesic(ctx, obs, rule='ORDER'):
